@@ -58,41 +58,48 @@ K("gr.tracker_sequence3", ["C13", "C01"], "jxl-grid", GR_AT, GR_ATM, "sequence3_
   "same contract as gr.tracker_sequence, 3 operations", attrs=_alloc_attrs)
 
 # ---- MutableSubgrid (C02) ----
-_SG_BOUND = ("bounded:backing buffer <= 48 elements; complete over offsets, widths, heights, strides (all of usize for one-row grids), "
-             "ranges and element values within it; every operation starts from an arbitrary well-formed grid, so contracts compose over nestings")
+_SG_BOUND = ("bounded:backing buffer <= 48 elements, every dimension/coordinate/offset/stride a 6-bit value (one-row grids with any usize stride: gr.ms.from_buf_*); "
+             "complete over element values and all geometries/arguments within the bound; every operation starts from an arbitrary well-formed grid, so contracts compose over nestings")
 _IN_ALLOC = " [harness precondition: pointers formed for EMPTY edge parts stay <= one-past-the-end, see DESIGN 2.2 / obs_ptr_add_leaves_allocation]"
 _MS_ACC = ["MutableSubgrid::try_get_ref", "MutableSubgrid::get_ref", "MutableSubgrid::get", "MutableSubgrid::try_get_row",
            "MutableSubgrid::try_get_mut", "MutableSubgrid::try_get_row_mut", "MutableSubgrid::get_ptr_unchecked"]
-_ACC_C = ("; the result's accessors (try_get_ref/get/try_get_row/try_get_mut/try_get_row_mut) at a symbolic (x, y): Some iff inside, address == base + off + y*stride + x "
-          "< len, CBMC pointer checks on the dereference, a write changes exactly that buffer element (observed at a symbolic index)")
+_ACC_C = ("; the result has exactly the specified (ptr, width, height, stride); its accessors (try_get_ref/get/try_get_row/try_get_mut/try_get_row_mut) at a symbolic (x, y): "
+          "Some iff inside, address == base + off + y*stride + x < len, CBMC pointer checks on the dereference, a write changes exactly that buffer element (observed at a symbolic index)")
 def _ms(id, harness, fns, contract, kind=None, **kw):
     K("gr.ms." + id, ["C02"], "jxl-grid", GR_MS, GR_MSM, harness, kind or _SG_BOUND, fns, contract, **kw)
-for _t in ["i16", "f32"]:
+_LEM = "bounded:6-bit values (0..=63) for every dimension, coordinate, offset and stride, buffer <= 48 -- pure arithmetic lemma over the abstract geometry, stride enumerated concretely"
+_ms("lemma_sub", "lemma_sub", [], "sub-rectangle (x0, y0, w, h) of a well-formed grid: well-formed if non-empty; element (x, y) == parent element (x0+x, y0+y), inside the parent and the buffer", kind=_LEM)
+_ms("lemma_injective", "lemma_injective", [], "distinct coordinates of a well-formed grid are distinct buffer elements (=> coordinate-disjoint parts are memory-disjoint)", kind=_LEM)
+_ms("lemma_split_partition", "lemma_split_partition", [], "the two split rectangles are sub-rectangles of the parent and every parent coordinate is in exactly one", kind=_LEM)
+_ms("lemma_groups_partition", "lemma_groups_partition", [], "group rectangles are sub-rectangles, pairwise coordinate-disjoint; (px, py) lies in group (px/gw, py/gh); ceil(w/gw) x ceil(h/gh) groups cover", kind=_LEM)
+_ms("lemma_merge", "lemma_merge", [], "adjacent well-formed grids (merge's accepted condition) give a well-formed grid that is exactly their union", kind=_LEM)
+_ms("lemma_vectored", "lemma_vectored", [], "aligned origin, width and stride multiples of 4 => vector grid well-formed; vector (x, y) == f32 elements (4x..4x+3, y), all inside the buffer", kind=_LEM)
+for _t, _tier in [("i16", "quick"), ("f32", "thorough")]:
     _ms("from_buf_" + _t, "ms_from_buf_" + _t, ["MutableSubgrid::from_buf", "MutableSubgrid::new", "MutableSubgrid::empty"] + _MS_ACC,
-        "requires width <= stride, (w == 0 || h == 0) ? len == 0 : stride*(h-1)+w <= len; ensures geometry (0, w, h, stride), split_base None" + _ACC_C)
+        "requires width <= stride, (w == 0 || h == 0) ? len == 0 : stride*(h-1)+w <= len (stride: all of usize for one-row grids); ensures geometry (0, w, h, stride) inside the buffer, split_base None" + _ACC_C, tier=_tier)
     _ms("subgrid_" + _t, "ms_subgrid_" + _t, ["MutableSubgrid::subgrid"] + _MS_ACC,
-        "requires left <= right <= width, top <= bottom <= height for all 9 Bound combinations per axis; ensures child (x, y) == parent (left+x, top+y), "
-        "child dims (right-left, bottom-top), same stride" + _ACC_C + _IN_ALLOC)
+        "requires left <= right <= width, top <= bottom <= height for all 9 Bound combinations per axis; ensures result == sub-rectangle (left, top, right-left, bottom-top) of lemma_sub"
+        + _ACC_C + _IN_ALLOC, tier=_tier)
     for _d, _D in [("h", "horizontal"), ("v", "vertical")]:
         _ms("split_%s_%s" % (_d, _t), "ms_split_%s_%s" % (_d, _t), ["MutableSubgrid::split_" + _D] + _MS_ACC,
-            "requires at <= width/height; ensures the two parts have the documented geometry, lie inside the parent, are disjoint and cover it "
-            "(symbolic points), share the split base" + _ACC_C + _IN_ALLOC)
+            "requires at <= width/height; ensures the two parts are exactly the rectangles of lemma_split_partition (inside the parent, disjoint, covering), share the split base"
+            + _ACC_C + _IN_ALLOC, tier=_tier)
         _ms("split_%s_in_place_%s" % (_d, _t), "ms_split_%s_in_place_%s" % (_d, _t), ["MutableSubgrid::split_%s_in_place" % _D] + _MS_ACC,
-            "same contract; self becomes the first part" + _ACC_C + _IN_ALLOC)
+            "same contract; self becomes the first part" + _ACC_C + _IN_ALLOC, tier=_tier)
         _ms("merge_%s_%s" % (_d, _t), "ms_merge_%s_%s" % (_d, _t), ["MutableSubgrid::merge_%s_in_place" % _D, "MutableSubgrid::split_%s_in_place" % _D] + _MS_ACC,
-            "merge(split_in_place(g, at)) == g for every at (merge never rejects a genuine split)" + _ACC_C + _IN_ALLOC)
+            "merge(split_in_place(g, at)) == g for every at (merge never rejects a genuine split)" + _ACC_C + _IN_ALLOC, tier=_tier)
     _ms("groups_" + _t, "ms_groups_" + _t, ["MutableSubgrid::into_groups", "MutableSubgrid::into_groups_with_fixed_count"] + _MS_ACC,
-        "requires gw, gh >= 1; ensures ceil(w/gw)*ceil(h/gh) groups row-first; group (gx, gy) element (x, y) == parent (gx*gw+x, gy*gh+y), "
-        "edge groups truncated; groups pairwise disjoint and cover the parent" + _ACC_C + _IN_ALLOC,
-        kind=_SG_BOUND + "; <= 12 groups")
+        "requires gw, gh >= 1; ensures ceil(w/gw)*ceil(h/gh) groups row-first, group (gx, gy) is exactly rectangle (gx*gw, gy*gh, min(gw, rest), min(gh, rest)) of lemma_groups_partition "
+        "(inside the parent, pairwise disjoint, covering)" + _ACC_C + _IN_ALLOC, kind=_SG_BOUND + "; <= 12 groups", tier=_tier)
     _ms("groups_fixed_" + _t, "ms_groups_fixed_" + _t, ["MutableSubgrid::into_groups_with_fixed_count"] + _MS_ACC,
-        "any num_cols x num_rows: exactly that many groups; in-range groups as into_groups, out-of-range groups empty; pairwise disjoint; inside the parent"
-        + _ACC_C + _IN_ALLOC, kind=_SG_BOUND + "; <= 12 groups")
+        "any num_cols x num_rows: exactly that many groups; group (gx, gy) is the rectangle clamped to the parent (out-of-range groups empty)"
+        + _ACC_C + _IN_ALLOC, kind=_SG_BOUND + "; <= 12 groups", tier=_tier)
     _ms("swap_" + _t, "ms_swap_" + _t, ["MutableSubgrid::swap", "MutableSubgrid::get_ptr"],
-        "requires both coordinates inside; ensures exactly the two mapped buffer elements are exchanged (same cell: no-op), nothing else changes")
+        "requires both coordinates inside; ensures exactly the two mapped buffer elements are exchanged (same cell: no-op), nothing else changes", tier=_tier)
     _ms("reborrow_" + _t, "ms_reborrow_" + _t, ["MutableSubgrid::borrow_mut", "MutableSubgrid::as_shared", "SharedSubgrid::new"] + _MS_ACC,
-        "borrow_mut / as_shared view exactly the same elements (geometry preserved)" + _ACC_C)
-_GUARD = "bounded:backing buffer <= 48 elements; complete over geometry and arguments (8-bit) -- guard proof: the real assertion is expected to fail, the tagged postcondition must not"
+        "borrow_mut / as_shared view exactly the same elements (geometry preserved)" + _ACC_C, tier=_tier)
+_GUARD = ("bounded:backing buffer <= 48 elements, 6-bit geometry and arguments -- guard proof: the documented assertion in the real code is expected to fail for bad arguments "
+          "(not attributable to C02), the tagged postcondition 'returned => arguments were in range' must hold")
 _ms("from_buf_rejects", "ms_from_buf_rejects", ["MutableSubgrid::from_buf"],
     "from_buf returns only if width <= stride and the area lies inside the buffer", kind=_GUARD)
 _ms("subgrid_rejects", "ms_subgrid_rejects", ["MutableSubgrid::subgrid"], "subgrid returns only for ranges inside the grid", kind=_GUARD)
@@ -102,11 +109,11 @@ _ms("groups_rejects", "ms_groups_rejects", ["MutableSubgrid::into_groups"], "int
 _ms("swap_rejects", "ms_swap_rejects", ["MutableSubgrid::swap"], "swap returns only for coordinates inside the grid", kind=_GUARD)
 _ms("merge_h_guard", "ms_merge_h_guard", ["MutableSubgrid::merge_horizontal_in_place"] + _MS_ACC,
     "for ANY two well-formed grids and split bases: merge returns only if same stride, same height, right.ptr == self(width, 0), widths fit the stride; "
-    "then the merged grid is exactly the union of both" + _ACC_C, kind=_GUARD)
+    "then the merged grid is exactly the union of lemma_merge" + _ACC_C, kind=_GUARD)
 _ms("merge_v_guard", "ms_merge_v_guard", ["MutableSubgrid::merge_vertical_in_place"] + _MS_ACC,
-    "for ANY two well-formed grids: merge returns only if same stride, same width, bottom.ptr == self(0, height); then the merged grid is exactly the union" + _ACC_C,
+    "for ANY two well-formed grids: merge returns only if same stride, same width, bottom.ptr == self(0, height); then the merged grid is exactly the union of lemma_merge" + _ACC_C,
     kind=_GUARD)
 _ms("into_i32", "ms_into_i32", ["MutableSubgrid::into_i32"] + _MS_ACC, "same geometry, same elements reinterpreted bit for bit" + _ACC_C)
 _ms("as_vectored", "ms_as_vectored", ["MutableSubgrid::as_vectored", "SimdVector::available (__m128)"] + _MS_ACC,
-    "Some iff origin 16-byte aligned and width, stride multiples of 4; vector (x, y) is f32 elements (4x..4x+3, y): every lane inside the buffer; "
-    "reads/writes of __m128 elements under CBMC pointer checks (plain pointer cast, no intrinsics)")
+    "Some iff origin 16-byte aligned and width, stride multiples of 4; vector (x, y) starts at f32 element (4x, y), all 4 lanes inside the buffer (lemma_vectored); "
+    "16-byte reads/writes of __m128 elements under CBMC pointer checks (plain pointer cast, no intrinsics)")
